@@ -482,7 +482,7 @@ def large_radius_family(chk):
     from trackpy.refine.center_of_mass import refine_com_arr
     from trackpy.masks import binary_mask
     rng = chk.rng
-    cases = [((64, 64), (150, 150)), ((70, 3), (170, 40)), ((127, 2), (280, 30)), ((128, 3), (290, 30)), ((20, 20), (60, 60)),
+    cases = [((13, 13), (40, 44)), ((26, 26), (70, 66)), ((13, 13, 13), (36, 36, 38)), ((64, 64), (150, 150)), ((70, 3), (170, 40)), ((127, 2), (280, 30)), ((128, 3), (290, 30)), ((20, 20), (60, 60)),
              ((66, 2, 2), (150, 12, 12)), ((3, 65), (40, 160))]
     if chk.tier == 'thorough':
         cases += [((129, 2), (300, 20)), ((100, 100), (230, 230)), ((2, 2, 80), (12, 12, 200))]
@@ -528,8 +528,17 @@ def large_eval(chk, img, radius, start, ch, iters):
         nb = img[sl].astype(float) * mask
         mass = nb.sum()
         cen = [float((nb * g).sum() / mass) + (int(c) - r) for g, c, r in zip(np.indices(nb.shape), start[0], radius)]
+        # size = radius of gyration of the SAME neighbourhood (isotropic radii): sqrt(sum I r^2 / mass)
+        exp_size = None
+        if ch and len(set(radius)) == 1:
+            r2 = sum((g - r) ** 2 for g, r in zip(np.indices(nb.shape), radius))
+            exp_size = float(np.sqrt((nb * r2).sum() / mass))
         for eng in ('python', 'numba'):
             row = out[eng][0]
+            if exp_size is not None and abs(row[nd + 1] - exp_size) > 1e-9 * max(1.0, exp_size):
+                chk.violation('large radius: size not measured on the neighbourhood of position and mass',
+                              "engine=%s at radius %s: reported size %r, radius of gyration of the mask neighbourhood the mass was measured on is %r "
+                              "(lattice points exactly on the mask boundary, e.g. 5-12-13)" % (eng, radius, float(row[nd + 1]), exp_size), dict(info, engine=eng))
             if not (np.allclose(row[:nd], cen, rtol=1e-9, atol=1e-9) and abs(row[nd] - mass) <= 1e-6 * max(1.0, mass)):
                 chk.violation('large radius: not the centroid / mass of the mask neighbourhood',
                               "engine=%s at radius %s: position %s mass %s, independent evaluation of the start window gives %s mass %s" % (
